@@ -105,6 +105,37 @@ type paillierGroupUnknownOrderElementDTO struct {
 	N          *num.NatPlus           `cbor:"n"`
 }
 
+// Decoded DTOs come from untrusted bytes: a CBOR null or a missing key leaves a field nil, and
+// the decoders below dereference every field, so each DTO is checked before use.
+
+func (d *rsaGroupUnknownOrderElementDTO) check() error {
+	if d.V == nil || d.Arithmetic == nil {
+		return errs.Wrap(ErrFailed).WithMessage("missing field in RSA group element encoding")
+	}
+	return nil
+}
+
+func (d *rsaGroupKnownOrderElementDTO) check() error {
+	if d.V == nil || d.Arithmetic == nil || d.Arithmetic.Params == nil {
+		return errs.Wrap(ErrFailed).WithMessage("missing field in RSA group element encoding")
+	}
+	return nil
+}
+
+func (d *paillierGroupKnownOrderElementDTO) check() error {
+	if d.V == nil || d.Arithmetic == nil || d.Arithmetic.P == nil || d.Arithmetic.Q == nil {
+		return errs.Wrap(ErrFailed).WithMessage("missing field in Paillier group element encoding")
+	}
+	return nil
+}
+
+func (d *paillierGroupUnknownOrderElementDTO) check() error {
+	if d.V == nil || d.Arithmetic == nil || d.N == nil {
+		return errs.Wrap(ErrFailed).WithMessage("missing field in Paillier group element encoding")
+	}
+	return nil
+}
+
 // ========== CBOR Serialisation ==========.
 
 // MarshalCBOR serialises the Paillier group. A known-order group is emitted
@@ -224,6 +255,9 @@ func (u *PaillierGroupElement[X]) UnmarshalCBOR(data []byte) error {
 		if err != nil {
 			return errs.Wrap(err)
 		}
+		if err := dto.check(); err != nil {
+			return err
+		}
 		p, err := num.NPlus().FromModulusCT(dto.Arithmetic.P.Factor)
 		if err != nil {
 			return errs.Wrap(err)
@@ -247,6 +281,9 @@ func (u *PaillierGroupElement[X]) UnmarshalCBOR(data []byte) error {
 		if err != nil {
 			return errs.Wrap(err)
 		}
+		if err := dto.check(); err != nil {
+			return err
+		}
 		n2 := dto.N.Square()
 		g, err := NewPaillierGroupOfUnknownOrder(n2, dto.N)
 		if err != nil {
@@ -260,7 +297,7 @@ func (u *PaillierGroupElement[X]) UnmarshalCBOR(data []byte) error {
 		return nil
 	default:
 		// For initial unmarshal when arith is zero value, try both
-		if dtoKnown, err := serde.UnmarshalCBOR[paillierGroupKnownOrderElementDTO](data); err == nil {
+		if dtoKnown, err := serde.UnmarshalCBOR[paillierGroupKnownOrderElementDTO](data); err == nil && dtoKnown.check() == nil {
 			p, err := num.NPlus().FromModulusCT(dtoKnown.Arithmetic.P.Factor)
 			if err != nil {
 				return errs.Wrap(err)
@@ -283,6 +320,9 @@ func (u *PaillierGroupElement[X]) UnmarshalCBOR(data []byte) error {
 		dto, err := serde.UnmarshalCBOR[paillierGroupUnknownOrderElementDTO](data)
 		if err != nil {
 			return errs.Wrap(err)
+		}
+		if err := dto.check(); err != nil {
+			return err
 		}
 		n2 := dto.N.Square()
 		g, err := NewPaillierGroupOfUnknownOrder(n2, dto.N)
@@ -410,6 +450,9 @@ func (u *RSAGroupElement[X]) UnmarshalCBOR(data []byte) error {
 		if err != nil {
 			return errs.Wrap(err)
 		}
+		if err := dto.check(); err != nil {
+			return err
+		}
 		p, err := num.NPlus().FromModulusCT(dto.Arithmetic.Params.P)
 		if err != nil {
 			return errs.Wrap(err)
@@ -433,6 +476,9 @@ func (u *RSAGroupElement[X]) UnmarshalCBOR(data []byte) error {
 		if err != nil {
 			return errs.Wrap(err)
 		}
+		if err := dto.check(); err != nil {
+			return err
+		}
 		g, err := NewRSAGroupOfUnknownOrder(dto.V.Modulus())
 		if err != nil {
 			return errs.Wrap(err)
@@ -445,7 +491,7 @@ func (u *RSAGroupElement[X]) UnmarshalCBOR(data []byte) error {
 		return nil
 	default:
 		// For initial unmarshal when arith is zero value, try both
-		if dtoKnown, err := serde.UnmarshalCBOR[rsaGroupKnownOrderElementDTO](data); err == nil {
+		if dtoKnown, err := serde.UnmarshalCBOR[rsaGroupKnownOrderElementDTO](data); err == nil && dtoKnown.check() == nil {
 			p, err := num.NPlus().FromModulusCT(dtoKnown.Arithmetic.Params.P)
 			if err != nil {
 				return errs.Wrap(err)
@@ -468,6 +514,9 @@ func (u *RSAGroupElement[X]) UnmarshalCBOR(data []byte) error {
 		dto, err := serde.UnmarshalCBOR[rsaGroupUnknownOrderElementDTO](data)
 		if err != nil {
 			return errs.Wrap(err)
+		}
+		if err := dto.check(); err != nil {
+			return err
 		}
 		g, err := NewRSAGroupOfUnknownOrder(dto.V.Modulus())
 		if err != nil {
